@@ -105,7 +105,20 @@ class CallMixin:
             if c is not None: return num(int(c))
             h = self.ext.get("int_of_num")
             if h: return h(self, v, st, n)
-            raise Unsupported("int(symbolic float)")
+            # int(v) for a float: truncation toward zero; int(nan) raises ValueError, int(±inf) OverflowError
+            self.raise_if(st, v.sp == 1, "ValueError", n); self.raise_if(st, OR(v.sp == 2, v.sp == 3), "OverflowError", n)
+            k = fresh("trunc", z3.RealSort())
+            self.assume.append(AND(z3.IsInt(k), ITE(v.val >= 0, AND(k <= v.val, v.val < k + 1), AND(k >= v.val, v.val > k - 1))))
+            return VNum(z3.IntVal(0), k, True)
+        if name == "round" and len(args) == 1 and not kwargs:
+            v = self.as_num(st, args[0], n)
+            if v.isint: return v
+            # round(v) for a float: nearest integer, ties to even; round(nan) raises ValueError, round(±inf) OverflowError
+            self.raise_if(st, v.sp == 1, "ValueError", n); self.raise_if(st, OR(v.sp == 2, v.sp == 3), "OverflowError", n)
+            k = fresh("round", z3.RealSort()); half = z3.RealVal("1/2")
+            self.assume.append(AND(z3.IsInt(k), k - v.val <= half, v.val - k <= half,
+                                   IMP(OR(k - v.val == half, v.val - k == half), z3.ToInt(k) % 2 == 0)))
+            return VNum(z3.IntVal(0), k, True)
         if name == "bool": return VBool(self.truth(args[0], st))
         if name in ("any", "all"):
             els = self.iter_items(args[0], st, n)
@@ -231,8 +244,13 @@ class CallMixin:
 
     def isinstance_(self, v, tnode, st, n=None):
         names = []
+        def from_value(val):
+            if isinstance(val, VClass): names.append(val.name)
+            elif isinstance(val, VTuple): [from_value(e) for e in val.items]
+            else: raise Unsupported(f"isinstance against a non-class value @ {self.where(n)}")
         def collect(t):
-            if isinstance(t, ast.Name): names.append(t.id)
+            if isinstance(t, ast.Name) and t.id in st.env: from_value(st.env[t.id])       # a local variable holding the class (or tuple of classes)
+            elif isinstance(t, ast.Name): names.append(t.id)
             elif isinstance(t, ast.Attribute): names.append(t.attr)
             elif isinstance(t, ast.Tuple): [collect(e) for e in t.elts]
             elif isinstance(t, ast.BinOp): collect(t.left); collect(t.right)
@@ -476,6 +494,24 @@ class CallMixin:
                 if isinstance(r, str): return VStr(r)
                 if isinstance(r, list): return VList([VStr(x) for x in r])
                 if isinstance(r, tuple): return VTuple([VStr(x) for x in r])
+        if name == "format" and recv.py is not None:
+            # "<template>".format(...) with plain fields ({} / {0} / {name}, no conversion or format spec) is the f-string with the same parts
+            import string as _string
+            parts, auto, plain = [], 0, True
+            try: fields = list(_string.Formatter().parse(recv.py))
+            except ValueError: fields, plain = [], False
+            for lit, fname, spec, conv in fields:
+                if lit: parts.append(VStr(lit))
+                if fname is None: continue
+                if spec or conv: plain = False; break
+                if fname == "":
+                    if auto >= len(args): plain = False; break
+                    parts.append(args[auto]); auto += 1
+                elif fname.isdigit() and int(fname) < len(args): parts.append(args[int(fname)])
+                elif fname in kwargs: parts.append(kwargs[fname])
+                else: plain = False; break
+            if plain: return self.join_parts(parts, st, n)
+        if name == "format" and any(isinstance(a, VStmt) for a in list(args) + list(kwargs.values())): raise Unsupported(f"str.format of a statement with a format spec @ {self.where(n)}")
         if name == "format" and not self.string_mode:
             return VStr(None, fresh("formatted", z3.StringSort()))          # message text: opaque outside string mode
         raise Unsupported(f"str.{name} on symbolic string @ {self.where(n)}")
